@@ -107,15 +107,30 @@ theorem mul_eq_spec {a b : Int} (ha : InInt a) (hb : InInt b) :
     by_cases hp : a * b ≤ 9223372036854775807
     · exact Or.inr (Or.inr (Or.inl ⟨hiff.mpr hp, hp⟩))
     · exact Or.inr (Or.inr (Or.inr ⟨fun h => hp (hiff.mp h), by omega⟩))
+  -- the same test written the other way round (`c/a != b`) is equivalent; keep the fact at hand so
+  -- that such a refactoring of the source still checks
+  have k3' : a < 2 ∨ b < 2 ∨ (goDiv (wrap64 (a * b)) a = b ∧ a * b ≤ 9223372036854775807) ∨
+      (goDiv (wrap64 (a * b)) a ≠ b ∧ a * b > 9223372036854775807) := by
+    by_cases h1 : a < 2; · exact Or.inl h1
+    by_cases h2 : b < 2; · exact Or.inr (Or.inl h2)
+    have hiff := div_test_iff (a := b) (b := a) (by omega) (by omega) hb.2 ha.2
+    rw [Int.mul_comm b a] at hiff
+    by_cases hp : a * b ≤ 9223372036854775807
+    · exact Or.inr (Or.inr (Or.inl ⟨hiff.mpr hp, hp⟩))
+    · exact Or.inr (Or.inr (Or.inr ⟨fun h => hp (hiff.mp h), by omega⟩))
   have k4 : a * b < -9223372036854775808 ∨ a * b > 9223372036854775807 ∨ wrap64 (a * b) = a * b := by
     by_cases h1 : a * b < -9223372036854775808; · exact Or.inl h1
     by_cases h2 : a * b > 9223372036854775807; · exact Or.inr (Or.inl h2)
     exact Or.inr (Or.inr (wrap64_id (by unfold InInt; omega)))
   unfold checkedNonNegativeMultiply mulSpec
   dsimp only
+  try simp only [Int.mul_comm b a]
   generalize goDiv (wrap64 (a * b)) b = q at *
+  generalize goDiv (wrap64 (a * b)) a = q' at *
   generalize wrap64 (a * b) = c at *
   generalize a * b = p at *
+  -- whatever other arithmetic the source does is linear: expose the wrap-around to omega
+  try unfold wrap64
   repeat' split
   all_goals first | omega | (simp only [Option.some.injEq] <;> omega)
 
